@@ -472,6 +472,7 @@ func main() {
 		res.Add("free_runs", int64(gate.FreeRunsDone))
 		res.Finish()
 	}
+	e3() // SCHED part first: no olla instance (and none of its background goroutines) exists yet
 	var jobs []job
 	for _, en := range []string{"sherpa", "olla"} {
 		for _, et := range []string{"vllm", "openai-compatible"} {
